@@ -640,6 +640,20 @@ func (r *Raft) startStopReplication() {
 		close(repl.stopCh)
 		delete(r.leaderState.replState, serverID)
 		r.observe(PeerObservation{Peer: repl.peer, Removed: true})
+
+		// Verify requests that still wait to hear from this peer never will:
+		// nobody sends it heartbeats any more. Judge them by the quorum of the
+		// configuration that no longer contains it. This runs in a goroutine
+		// because a decided request is handed back through verifyCh, which
+		// this (the leader) loop reads.
+		if pending := repl.takeNotify(); len(pending) > 0 {
+			quorumSize := r.quorumSize()
+			r.goFunc(func() {
+				for v := range pending {
+					v.dropPeer(quorumSize)
+				}
+			})
+		}
 	}
 
 	// Update peers metric
